@@ -78,6 +78,7 @@ struct Scenario {
             cache.setAllocator(&rec);
             std::vector<Handle> live;
             std::map<char*, int> first_class;         // address -> class of the request that created it
+            std::set<char*> cached_free;              // released to the cache with a size of their own class and not handed out again since
             char* last_released = nullptr; size_t last_released_size = 0;
             char foreign[16]; memset(foreign, 0, sizeof foreign); strcpy(foreign, "foreign");
             Model m;
@@ -110,6 +111,7 @@ struct Scenario {
                     if (fc == first_class.end()) first_class[p] = cls;
                     else if (fc->second != cls) vf::fail("alloc/cross-class-reuse", trace + vf::fmt(": buffer of class %d reused for class %d", fc->second, cls));
                     memset(p, 'x', size); if (r->size) p[r->size - 1] = 0;       // write all requested bytes
+                    cached_free.erase(p);
                     // model
                     int blk;
                     if (cls < 5 && !m.freel[cls].empty()) { blk = m.freel[cls].front(); m.freel[cls].erase(m.freel[cls].begin()); m.used[cls].insert(m.used[cls].begin(), blk); if (m.ptr[blk] != p) m.diverged = true; }
@@ -132,6 +134,7 @@ struct Scenario {
                     } else {
                         if (g_warnings != warned_before) vf::fail("dealloc/warning-on-known-buffer", trace + ": releasing a live buffer with a size of its own class printed the unknown-buffer warning");
                         last_released = h.p; last_released_size = size;
+                        cached_free.insert(h.p);
                         auto& u = m.used[cls]; auto it = std::find(u.begin(), u.end(), h.block);
                         if (it != u.end()) { u.erase(it); if (cls < 5) m.freel[cls].insert(m.freel[cls].begin(), h.block); }
                         else m.diverged = true;
@@ -161,12 +164,15 @@ struct Scenario {
                             vf::ctx("clearCache"); trace += "clearCache ";
                             cache.clearCache();
                             for (int i = 0; i < 5; i++) m.freel[i].clear();
+                            // clearing the cache gives every buffer that was released into it back to the underlying allocator
+                            for (char* q : cached_free) { Rec* qr = rec.find(q); if (qr && !qr->returned) { vf::fail("clearCache/released-buffer-not-returned", trace + vf::fmt(": a released buffer of %zu bytes is still held after clearCache", qr->size)); break; } }
+                            cached_free.clear();
                             for (auto& h : live) { Rec* hr = rec.find(h.p); if (!hr || hr->returned) vf::fail("clearCache/returned-live-buffer", trace + ": a buffer still in use was returned to the allocator"); }
                         } else {
                             vf::ctx("clearAll"); trace += "clearAll ";
                             cache.clearAllIncludingCurrentlyUsedMemory();
                             if (rec.outstanding() != 0) vf::fail("clearAll/not-everything-returned", trace + vf::fmt(": %d blocks still outstanding", rec.outstanding()));
-                            live.clear(); last_released = nullptr;
+                            live.clear(); last_released = nullptr; cached_free.clear();
                             for (int i = 0; i < 6; i++) m.used[i].clear();
                             for (int i = 0; i < 5; i++) m.freel[i].clear();
                         }
